@@ -204,4 +204,17 @@ Proof.
   - apply IH. intros t' Ht'. apply Hin. now right.
 Qed.
 
+(* AWAY stores exactly the text sent (the last one wins: the record is overwritten), an AWAY without text clears it;
+   nothing else of the record and nobody else's record changes; 306 / 305 to the sender *)
+Lemma away_effect s c text nick u :
+  c_nick c = Some nick -> users s !! nick = Some u ->
+  exists r, process_away cfg i s c text = Ok r /\ h_conn r = c /\ h_quit r = false /\
+    users (h_sh r) = <[nick := u_set_away text u]> (users s) /\ chans (h_sh r) = chans s /\
+    u_away (u_set_away text u) = text /\
+    h_out r = [(i, srv cfg (match text with Some _ => rpl_nowaway (client_name c) | None => rpl_unaway (client_name c) end))].
+Proof.
+  intros Hn Hu. unfold process_away, own_nick, get_user. rewrite Hn. cbn [rbind]. rewrite Hu. cbn [rbind].
+  eexists. split; [reflexivity|]. cbn. repeat split.
+Qed.
+
 End msg.
